@@ -185,7 +185,12 @@ func (b HTTPBucket) NewRangeReaderEtag(ctx context.Context, key string, offset, 
 
 	resp, err := b.client.Do(req)
 	if err != nil {
-		return nil, "", resp.StatusCode, err
+		// on a transport error there is no response to take a status code from
+		statusCode := http.StatusInternalServerError
+		if resp != nil {
+			statusCode = resp.StatusCode
+		}
+		return nil, "", statusCode, err
 	}
 
 	if resp.StatusCode != http.StatusOK && resp.StatusCode != http.StatusPartialContent {
